@@ -82,7 +82,9 @@ theorem entryStep_openInv (style : List Char) (st : PState) (nr : Nat) (l : List
   split
   · exact h
   · split
-    · split <;> exact h
+    · split
+      · exact h
+      · exact commit_openInv st h
     · exact entryStepB_openInv _ _ _ _ (commit_openInv st h)
 
 theorem stepsGo_openInv (style : List Char) (ls : List (List Char)) : ∀ (st : PState) (nr : Nat),
@@ -98,16 +100,18 @@ theorem entriesGo_openInv (style : List Char) (ls : List (List Char)) (nr : Nat)
 
 /-! ## one new entry -/
 
-/-- the first run (from the empty state) has not committed anything yet -/
+/-- the first run (from the empty state) has not committed anything yet, as long as there is no
+error (a malformed continuation line commits the pending entry) -/
 def FreshInv (a : PState) : Prop :=
-  a.entries = [] ∧ a.hasOpen = false ∧ (a.pending.isSome = true ∨ a.errs ≠ [] ∨ a.panicked = true)
+  (a.errs = [] → a.entries = []) ∧ (a.errs = [] → a.hasOpen = false) ∧
+    (a.pending.isSome = true ∨ a.errs ≠ [] ∨ a.panicked = true)
 
 theorem entryStepB_fresh (style : List Char) (nr : Nat) (l : List Char) :
     FreshInv (entryStepB style {} nr l) := by
   unfold entryStepB
   dsimp only
   repeat' split
-  all_goals (refine ⟨rfl, rfl, ?_⟩; simp)
+  all_goals (refine ⟨fun _ => rfl, fun _ => rfl, ?_⟩; simp)
 
 theorem entryStep_fresh (style : List Char) (a : PState) (nr : Nat) (l : List Char) (h : FreshInv a)
     (hd : (style ++ style).isPrefixOf l = true) : FreshInv (entryStep style a nr l) := by
@@ -122,7 +126,7 @@ theorem entryStep_fresh (style : List Char) (a : PState) (nr : Nat) (l : List Ch
       dsimp only
       split
       · exact ⟨h1, h2, Or.inl rfl⟩
-      · exact ⟨h1, h2, Or.inr (Or.inl (by simp))⟩
+      · exact ⟨by simp, by simp, Or.inr (Or.inl (by simp))⟩
     | none =>
       dsimp only
       rw [commit_of_none a ha]
@@ -134,9 +138,9 @@ theorem entryStep_fresh (style : List Char) (a : PState) (nr : Nat) (l : List Ch
         · simp [h3] at hsp
       refine ⟨?_, ?_, Or.inr (Or.inl (hm.1 he))⟩
       · unfold entryStepB; dsimp only; repeat' split
-        all_goals exact h1
+        all_goals first | exact h1 | simp
       · unfold entryStepB; dsimp only; repeat' split
-        all_goals exact h2
+        all_goals first | exact h2 | simp
 
 theorem stepsGo_fresh (style : List Char) (ls : List (List Char))
     (hls : ∀ l ∈ ls, (style ++ style).isPrefixOf l = true) : ∀ (a : PState) (nr : Nat),
@@ -155,7 +159,7 @@ theorem newEntry_sim (ind : List Char) (ST : PState) (nr : Nat) (l1 : List Char)
     Sim ST.entries ST.hasOpen (stepsGo ind {} 1 (l1 :: conts)) (stepsGo ind ST nr (l1 :: conts)) ∧
       FreshInv (stepsGo ind {} 1 (l1 :: conts)) := by
   have h0 : Sim ST.entries ST.hasOpen ({} : PState) ST :=
-    ⟨by simp, by simp [he], by simp, hs.symm, hpn.symm, by simp [pend, hp]⟩
+    ⟨fun _ => by simp, by simp [he], fun _ => by simp, hs.symm, hpn.symm, by simp [pend, hp]⟩
   constructor
   · simp only [stepsGo]
     apply stepsGo_sim ind _ _ conts (Or.inr hconts)
@@ -215,11 +219,11 @@ theorem newEntry_run (ind : List Char) (ST : PState) (nr : Nat) (l1 : List Char)
       simp only [pend, hap, hq, Option.map_some, Option.some.injEq, Prod.mk.injEq] at this
       exact ⟨q, rfl, this.1.symm, this.2.symm⟩
   obtain ⟨q, hbq, hv, hsm⟩ := hbp
-  have hbo : b.hasOpen = ST.hasOpen := by rw [hsim.hasOpen, f2]; simp
+  have hbo : b.hasOpen = ST.hasOpen := by rw [hsim.hasOpen ha1, f2 ha1]; simp
   rw [commit_some b q hbq] at hF1 ⊢
   rw [commit_some a p hap]
   rw [hv, hbo] at hF1 ⊢
-  rw [f2]
+  rw [f2 ha1]
   cases hcond : (isOpen p.val && ST.hasOpen) with
   | true =>
     rw [hcond] at hF1
@@ -227,8 +231,8 @@ theorem newEntry_run (ind : List Char) (ST : PState) (nr : Nat) (l1 : List Char)
   | false =>
     simp only [Bool.false_eq_true, if_false, Bool.and_false]
     refine ⟨⟨p.val, p.summary⟩, ?_, ?_, ha1, ha2, hcond⟩
-    · rw [hsim.entries, f1, hsm]; simp
-    · rw [f1]; simp
+    · rw [hsim.entries ha1, f1 ha1, hsm]; simp
+    · rw [f1 ha1]; simp
 
 /-- the converse direction, for the rejection of a second open range -/
 theorem newEntry_open_rejected (ind : List Char) (ST : PState) (nr : Nat) (l1 : List Char) (conts : List (List Char))
@@ -265,9 +269,9 @@ theorem newEntry_open_rejected (ind : List Char) (ST : PState) (nr : Nat) (l1 : 
       simp only [pend, hap, hq, Option.map_some, Option.some.injEq, Prod.mk.injEq] at this
       exact ⟨q, rfl, this.1.symm, this.2.symm⟩
   obtain ⟨q, hbq, hv, hsm⟩ := hbp
-  have hbo : b.hasOpen = true := by rw [hsim.hasOpen, hH]; simp
-  rw [commit_some a p hap, f2] at hA1
-  simp only [Bool.and_false, Bool.false_eq_true, if_false, f1, List.nil_append, List.cons.injEq, and_true] at hA1
+  have hbo : b.hasOpen = true := by rw [hsim.hasOpen ha1, hH]; simp
+  rw [commit_some a p hap, f2 ha1] at hA1
+  simp only [Bool.and_false, Bool.false_eq_true, if_false, f1 ha1, List.nil_append, List.cons.injEq, and_true] at hA1
   have hpo : isOpen p.val = true := by rw [← hA1] at ho; exact ho
   rw [commit_some b q hbq, hv, hpo, hbo]
   simp
